@@ -289,10 +289,16 @@ def r06_3(q, R, spec):
         env = U.build_env(sp_["params"], sp_["let"])
         res = U.result_term(nz)
         fors = [nz.term(f["iter"]) for f in H.walk(b["body"]) if f.get("k") == "for"]
-        R.inst(rid, "JarSuperProv::remap:loops", fors == [U.parse(x, env) for x in sp_["loops"]], sp=b["sp"], expect=sp_["loops"],
-               got=[U.show(f) for f in fors], detail="every provider / class / super class, in the stored order")
-        ok = False
-        got = []
+        # the iterator-chain spelling: the result is the element-wise image itself
+        coll = lambda x: ("call", "collect", (x,))
+        l0, l1, l2 = [U.parse(x, env) for x in sp_["loops"]]
+        chain_form = coll(("each", l0, ("struct", "JarSuperProv", (("super_classes", coll(("each", l1, ("tuple", (
+            U.parse(sp_["map_insert_key"], env), coll(("each", l2, U.parse(sp_["set_insert"], env)))))))),))))
+        is_chain = res == chain_form
+        R.inst(rid, "JarSuperProv::remap:loops", is_chain or fors == [U.parse(x, env) for x in sp_["loops"]], sp=b["sp"], expect=sp_["loops"],
+               got=[U.show(f) for f in fors] or U.show(res)[:200], detail="every provider / class / super class, in the stored order")
+        ok = is_chain
+        got = [U.show(res)[:300]] if is_chain else []
         if res and res[0] == "local":
             pushes = U.mutations_of(b["body"], res[1])
             if len(pushes) == 1 and pushes[0].get("name") == "push" and U.cond_terms(nz, b["body"], pushes[0]) == []:
